@@ -44,6 +44,13 @@ type Exec struct {
 	Unsupported map[string]int
 	curNonNil bool
 	seq int
+	identObj map[string]*Object
+	vtxType  types.Type
+	walkerOf map[*Object]*Object
+	walkerSig map[*Object]*Object
+	txnDB    map[*Object]*Object
+	itemOf   map[*Object]itemRef
+	entryKV  map[*Object][2]*Term
 }
 
 func NewExec(prog *ssa.Program, specs *SpecDB, cfg Config) *Exec {
@@ -58,7 +65,8 @@ func NewExec(prog *ssa.Program, specs *SpecDB, cfg Config) *Exec {
 	}
 	return &Exec{Prog: prog, G: NewGen(), Specs: specs, Cfg: cfg, loops: map[*ssa.Function]*LoopInfo{},
 		globals: map[*ssa.Global]*Object{}, textOrd: map[*ssa.Function]map[ssa.Instruction]string{},
-		Notes: map[string]int{}, Unsupported: map[string]int{}}
+		Notes: map[string]int{}, Unsupported: map[string]int{}, identObj: map[string]*Object{}, walkerOf: map[*Object]*Object{}, walkerSig: map[*Object]*Object{},
+		txnDB: map[*Object]*Object{}, itemOf: map[*Object]itemRef{}, entryKV: map[*Object][2]*Term{}}
 }
 
 func (ex *Exec) isInRepo(f *ssa.Function) bool {
@@ -82,6 +90,13 @@ func (ex *Exec) isInRepo(f *ssa.Function) bool {
 func (ex *Exec) useContract(name string) bool {
 	if ex.Cfg.NoContracts != nil && ex.Cfg.NoContracts[name] {
 		return false
+	}
+	// a contract that only states entry preconditions (well-formedness of the receiver) is not a summary:
+	// such callees are inlined
+	if ex.Specs != nil {
+		if ct := ex.Specs.Contracts[name]; ct != nil && (ct.Inline || len(ct.Ensures) == 0 && !ct.HasAssign) {
+			return false
+		}
 	}
 	return true
 }
@@ -384,6 +399,17 @@ func (ex *Exec) store(st *State, p *PtrV, v Value) {
 	}
 	root := ex.objVal(st, p.Obj)
 	st.Heap[p.Obj] = ex.writePath(st, root, p.Path, v, p.Obj.Typ)
+	ex.markWritten(st, p.Obj)
+}
+
+func (ex *Exec) markWritten(st *State, o *Object) {
+	if o == nil || !o.Sym {
+		return
+	}
+	if st.Written == nil {
+		st.Written = map[*Object]bool{}
+	}
+	st.Written[o] = true
 }
 
 // ---------- obligations ----------
@@ -513,6 +539,9 @@ func ssaText(v ssa.Value, d int) string {
 	case *ssa.Global:
 		return x.Name()
 	case *ssa.Const:
+		if x.Value == nil {
+			return "nil"
+		}
 		return x.Value.String()
 	case *ssa.FieldAddr:
 		st := x.X.Type().Underlying().(*types.Pointer).Elem().Underlying().(*types.Struct)
@@ -610,6 +639,25 @@ func (ex *Exec) runAll() {
 
 func (ex *Exec) runPath(st *State) {
 	steps := 0
+	if os.Getenv("GOCV_TRACE") != "" {
+		defer func() {
+			if len(st.Frames) > 0 {
+				fr := st.Top()
+				pos := ""
+				if fr.Idx > 0 && fr.Idx <= len(fr.Block.Instrs) {
+					pos = ex.Prog.Fset.Position(fr.Block.Instrs[fr.Idx-1].Pos()).String()
+				}
+				fmt.Fprintf(os.Stderr, "path %d ends dead in %s block %d idx %d %s\n", st.ID, fr.Fn.Name(), fr.Block.Index, fr.Idx, pos)
+				if os.Getenv("GOCV_TRACE") == "2" {
+					for _, c := range st.PC {
+						fmt.Fprintf(os.Stderr, "    pc: %s\n", c)
+					}
+				}
+			} else {
+				fmt.Fprintf(os.Stderr, "path %d returned\n", st.ID)
+			}
+		}()
+	}
 	for !st.Dead && len(st.Frames) > 0 {
 		steps++
 		if steps > 200000 {
